@@ -6,7 +6,7 @@ import (
 )
 
 const vpRefAlpha = "a-zA-Z0-9_.-"
-const vpRefFirst = "a-zA-Z0-9_"
+const vpRefFirst = "a-zA-Z0-9_.-"
 
 func vpRefName(name string, maxLen int) string {
 	n := 1 + zzvp.Choose(maxLen)
@@ -14,6 +14,7 @@ func vpRefName(name string, maxLen int) string {
 	if n > 1 {
 		s += zzvp.Str(name+"1", n-1, vpRefAlpha)
 	}
+	zzvp.Assume(s != "." && s != "..") // not valid branch names
 	return s
 }
 
